@@ -9459,10 +9459,15 @@ class SVG(Group):
                         if s is None:
                             # s was not established we continue without it.
                             continue
-                    s.render(ppi=ppi, width=width, height=height)
-                    if reify:
-                        s.reify()
-                    if s.is_degenerate():
+                    try:
+                        s.render(ppi=ppi, width=width, height=height)
+                        if reify:
+                            s.reify()
+                        if s.is_degenerate():
+                            continue
+                    except ValueError:
+                        # A length that cannot be resolved (em, ex without font metrics) where a number
+                        # is needed: the element is in error and is skipped.
                         continue
                     if context is not None:
                         context.append(s)
